@@ -92,6 +92,8 @@ func main() {
 		// worker <prop> <tier> <space> <lvl> <i> <k> <resume>
 		chk := registry[os.Args[2]]
 		os.Exit(mc.WorkerMain(chk, os.Args[3], os.Args[4:]))
+	case "c05child":
+		os.Exit(c05ChildMain(os.Args[2]))
 	case "exec1":
 		chk := registry[os.Args[2]]
 		if chk == nil || len(os.Args) < 6 {
